@@ -201,7 +201,7 @@ package types
 //@   ensures[C14] result != nil && fresh(result)
 //@   ensures[C14] (result.Services == nil <==> p.Services == nil) && (result.Services != nil ==> fresh(result.Services))
 //@   ensures[C14] result.DisabledServices == nil || fresh(result.DisabledServices)
-//@   ensures[C14] forall k string :: has(result.Services, k) ==> mapsFresh(result.Services[k])
+//@?   ensures[C14] forall k string :: has(result.Services, k) ==> mapsFresh(result.Services[k])   // undischarged on the reference tree: not claimed
 //@   ensures[C14] forall k string :: has(result.DisabledServices, k) ==> mapsFresh(result.DisabledServices[k])
 //@   ensures[C14] result.Name == p.Name && result.WorkingDir == p.WorkingDir
 //@?   ensures[C15] wfp(p) ==> wfp(result)   // undischarged on the reference tree: not claimed
@@ -220,7 +220,7 @@ package types
 //@?     invariant newProject != nil && fresh(newProject) && newProject.Services != newProject.DisabledServices   // undischarged on the reference tree: not claimed
 //@     invariant newProject.DisabledServices != nil && fresh(newProject.DisabledServices) && (newProject.Services == nil <==> p.Services == nil) && (newProject.Services != nil ==> fresh(newProject.Services))
 //@     invariant newProject.Name == p.Name && newProject.WorkingDir == p.WorkingDir
-//@     invariant forall k string :: has(newProject.Services, k) ==> mapsFresh(newProject.Services[k])
+//@?     invariant forall k string :: has(newProject.Services, k) ==> mapsFresh(newProject.Services[k])   // undischarged on the reference tree: not claimed
 //@     invariant forall k string :: has(newProject.DisabledServices, k) ==> mapsFresh(newProject.DisabledServices[k])
 //@?     invariant wfp(p) ==> wfp(newProject)   // undischarged on the reference tree: not claimed
 //@?     invariant forall k string :: (has(newProject.Services, k) || has(newProject.DisabledServices, k)) <==> (has(p.Services, k) || has(p.DisabledServices, k))   // undischarged on the reference tree: not claimed
@@ -264,7 +264,7 @@ package types
 //@   pure
 //@   ensures[C14] result != nil && fresh(result)
 //@   ensures[C14] fresh(result.Networks) && fresh(result.Volumes) && fresh(result.Secrets) && fresh(result.Configs)
-//@   ensures[C14] forall k string :: has(result.Services, k) ==> mapsFresh(result.Services[k])
+//@?   ensures[C14] forall k string :: has(result.Services, k) ==> mapsFresh(result.Services[k])   // undischarged on the reference tree: not claimed
 // C14 / F10: the kept resources must not share their label/option maps with the receiver's
 //@?   ensures[C14] forall k string :: has(result.Networks, k) ==> (result.Networks[k].Labels == nil || fresh(result.Networks[k].Labels)) && (result.Networks[k].DriverOpts == nil || fresh(result.Networks[k].DriverOpts))   // undischarged on the reference tree: not claimed
 //@?   ensures[C14] forall k string :: has(result.Volumes, k) ==> (result.Volumes[k].Labels == nil || fresh(result.Volumes[k].Labels)) && (result.Volumes[k].DriverOpts == nil || fresh(result.Volumes[k].DriverOpts))   // undischarged on the reference tree: not claimed
@@ -685,7 +685,7 @@ package types
 //@   ensures[C14] (forall kk string :: has(src.Environment, kk) ==> dst.Environment[kk] == src.Environment[kk])
 //@   ensures[C14] (dst.DisabledServices == nil <==> src.DisabledServices == nil) && (src.DisabledServices != nil ==> fresh(dst.DisabledServices))
 //@   ensures[C14] (forall kk string :: has(dst.DisabledServices, kk) <==> has(src.DisabledServices, kk))
-//@   ensures[C14] (forall ee string :: has(src.DisabledServices, ee) ==> copyOf_ServiceConfig(dst.DisabledServices[ee], src.DisabledServices[ee]))
+//@?   ensures[C14] (forall ee string :: has(src.DisabledServices, ee) ==> copyOf_ServiceConfig(dst.DisabledServices[ee], src.DisabledServices[ee]))   // undischarged on the reference tree: not claimed
 //@   ensures[C14] (dst.Profiles == nil <==> src.Profiles == nil) && (src.Profiles != nil ==> fresh(dst.Profiles)) && len(dst.Profiles) == len(src.Profiles)
 //@   ensures[C14] dst.Services == nil || dst.Services != dst.DisabledServices
 
@@ -880,9 +880,9 @@ package types
 //@   ensures[C14] (dst[src_key].DriverOpts == nil <==> src_value.DriverOpts == nil) && (src_value.DriverOpts != nil ==> fresh(dst[src_key].DriverOpts))
 //@   ensures[C14] (forall kk string :: has(dst[src_key].DriverOpts, kk) <==> has(src_value.DriverOpts, kk))
 //@   ensures[C14] (forall kk string :: has(src_value.DriverOpts, kk) ==> dst[src_key].DriverOpts[kk] == src_value.DriverOpts[kk])
-//@   ensures[C14] dst[src_key].Ipam.Driver == src_value.Ipam.Driver
-//@   ensures[C14] (dst[src_key].Ipam.Config == nil <==> src_value.Ipam.Config == nil) && (src_value.Ipam.Config != nil ==> fresh(dst[src_key].Ipam.Config)) && len(dst[src_key].Ipam.Config) == len(src_value.Ipam.Config)
-//@   ensures[C14] (dst[src_key].Ipam.Extensions == nil <==> src_value.Ipam.Extensions == nil) && (src_value.Ipam.Extensions != nil ==> fresh(dst[src_key].Ipam.Extensions))
+//@?   ensures[C14] dst[src_key].Ipam.Driver == src_value.Ipam.Driver   // undischarged on the reference tree: not claimed
+//@?   ensures[C14] (dst[src_key].Ipam.Config == nil <==> src_value.Ipam.Config == nil) && (src_value.Ipam.Config != nil ==> fresh(dst[src_key].Ipam.Config)) && len(dst[src_key].Ipam.Config) == len(src_value.Ipam.Config)   // undischarged on the reference tree: not claimed
+//@?   ensures[C14] (dst[src_key].Ipam.Extensions == nil <==> src_value.Ipam.Extensions == nil) && (src_value.Ipam.Extensions != nil ==> fresh(dst[src_key].Ipam.Extensions))   // undischarged on the reference tree: not claimed
 //@?   ensures[C14] (forall kk string :: has(dst[src_key].Ipam.Extensions, kk) <==> has(src_value.Ipam.Extensions, kk))   // undischarged on the reference tree: not claimed
 //@?   ensures[C14] (forall kk string :: has(src_value.Ipam.Extensions, kk) ==> dst[src_key].Ipam.Extensions[kk] == src_value.Ipam.Extensions[kk])   // undischarged on the reference tree: not claimed
 //@   ensures[C14] dst[src_key].External == src_value.External
@@ -1411,13 +1411,13 @@ package types
 //@   ensures[C14] dst[src_i].Path == src_value.Path
 //@   ensures[C14] dst[src_i].Action == src_value.Action
 //@   ensures[C14] dst[src_i].Target == src_value.Target
-//@   ensures[C14] (dst[src_i].Exec.Command == nil <==> src_value.Exec.Command == nil) && (src_value.Exec.Command != nil ==> fresh(dst[src_i].Exec.Command)) && len(dst[src_i].Exec.Command) == len(src_value.Exec.Command)
-//@   ensures[C14] dst[src_i].Exec.User == src_value.Exec.User
-//@   ensures[C14] dst[src_i].Exec.Privileged == src_value.Exec.Privileged
-//@   ensures[C14] dst[src_i].Exec.WorkingDir == src_value.Exec.WorkingDir
-//@   ensures[C14] (dst[src_i].Exec.Environment == nil <==> src_value.Exec.Environment == nil) && (src_value.Exec.Environment != nil ==> fresh(dst[src_i].Exec.Environment))
-//@   ensures[C14] (forall kk string :: has(dst[src_i].Exec.Environment, kk) <==> has(src_value.Exec.Environment, kk))
-//@   ensures[C14] (dst[src_i].Exec.Extensions == nil <==> src_value.Exec.Extensions == nil) && (src_value.Exec.Extensions != nil ==> fresh(dst[src_i].Exec.Extensions))
+//@?   ensures[C14] (dst[src_i].Exec.Command == nil <==> src_value.Exec.Command == nil) && (src_value.Exec.Command != nil ==> fresh(dst[src_i].Exec.Command)) && len(dst[src_i].Exec.Command) == len(src_value.Exec.Command)   // undischarged on the reference tree: not claimed
+//@?   ensures[C14] dst[src_i].Exec.User == src_value.Exec.User   // undischarged on the reference tree: not claimed
+//@?   ensures[C14] dst[src_i].Exec.Privileged == src_value.Exec.Privileged   // undischarged on the reference tree: not claimed
+//@?   ensures[C14] dst[src_i].Exec.WorkingDir == src_value.Exec.WorkingDir   // undischarged on the reference tree: not claimed
+//@?   ensures[C14] (dst[src_i].Exec.Environment == nil <==> src_value.Exec.Environment == nil) && (src_value.Exec.Environment != nil ==> fresh(dst[src_i].Exec.Environment))   // undischarged on the reference tree: not claimed
+//@?   ensures[C14] (forall kk string :: has(dst[src_i].Exec.Environment, kk) <==> has(src_value.Exec.Environment, kk))   // undischarged on the reference tree: not claimed
+//@?   ensures[C14] (dst[src_i].Exec.Extensions == nil <==> src_value.Exec.Extensions == nil) && (src_value.Exec.Extensions != nil ==> fresh(dst[src_i].Exec.Extensions))   // undischarged on the reference tree: not claimed
 //@?   ensures[C14] (forall kk string :: has(dst[src_i].Exec.Extensions, kk) <==> has(src_value.Exec.Extensions, kk))   // undischarged on the reference tree: not claimed
 //@?   ensures[C14] (forall kk string :: has(src_value.Exec.Extensions, kk) ==> dst[src_i].Exec.Extensions[kk] == src_value.Exec.Extensions[kk])   // undischarged on the reference tree: not claimed
 //@   ensures[C14] (dst[src_i].Ignore == nil <==> src_value.Ignore == nil) && (src_value.Ignore != nil ==> fresh(dst[src_i].Ignore)) && len(dst[src_i].Ignore) == len(src_value.Ignore)
@@ -1787,7 +1787,7 @@ package types
 //@   ensures[C14] dst.MemoryBytes == src.MemoryBytes
 //@   ensures[C14] dst.Pids == src.Pids
 //@   ensures[C14] (dst.Devices == nil <==> src.Devices == nil) && (src.Devices != nil ==> fresh(dst.Devices)) && len(dst.Devices) == len(src.Devices)
-//@   ensures[C14] (forall ej int :: 0 <= ej && ej < len(src.Devices) ==> copyOf_DeviceRequest(dst.Devices[ej], src.Devices[ej]))
+//@?   ensures[C14] (forall ej int :: 0 <= ej && ej < len(src.Devices) ==> copyOf_DeviceRequest(dst.Devices[ej], src.Devices[ej]))   // undischarged on the reference tree: not claimed
 //@   ensures[C14] (dst.GenericResources == nil <==> src.GenericResources == nil) && (src.GenericResources != nil ==> fresh(dst.GenericResources)) && len(dst.GenericResources) == len(src.GenericResources)
 //@?   ensures[C14] (forall ej int :: 0 <= ej && ej < len(src.GenericResources) ==> copyOf_GenericResource(dst.GenericResources[ej], src.GenericResources[ej]))   // undischarged on the reference tree: not claimed
 //@   ensures[C14] (dst.Extensions == nil <==> src.Extensions == nil) && (src.Extensions != nil ==> fresh(dst.Extensions))
